@@ -80,22 +80,29 @@ pub fn raw_value_cmp(
 /// Schedule points. Each call site reports an event (kind, object id, two values) to a
 /// process-global callback installed by the harness (which logs it and may delay the thread).
 pub mod ev {
-    /// decoder thread: a chunk has been written to the shared buffer (a = bytes written so far).
+    /// decoder thread: a chunk has been written to the shared buffer (a = bytes written so far, b = total size).
     pub const CHUNK: u8 = 1;
     /// decoder thread, under the mutex: the decoded length is published (a = published length).
     pub const PUBLISH: u8 = 2;
     /// decoder thread, under the mutex: the decoder stopped on an error (a = decoded length).
     pub const FAIL: u8 = 3;
-    /// reader thread: about to wait until `a` bytes are decoded.
+    /// reader thread: about to wait until `a` bytes are decoded (b = total size).
     pub const WAIT_BEGIN: u8 = 4;
     /// reader thread, under the mutex: the wait for `a` bytes returned (b = decoded length * 2 + failed).
     pub const WAIT_END: u8 = 5;
-    /// reader thread: a slice of the shared buffer of length `a` is taken.
+    /// reader thread, under the mutex: the decoded length `a` is read to take a slice of the shared buffer.
     pub const SLICE: u8 = 6;
     /// content pack, under the cache mutex: cluster `a` is asked for.
     pub const CACHE_GET: u8 = 7;
     /// content pack, under the cache mutex: cluster `a` is not in the cache and is loaded.
     pub const CACHE_MISS: u8 = 8;
+}
+
+static SERIAL: std::sync::atomic::AtomicUsize = std::sync::atomic::AtomicUsize::new(0);
+
+/// A process-unique number for each shared decoding buffer (the object id of its events).
+pub(crate) fn next_serial() -> usize {
+    SERIAL.fetch_add(1, std::sync::atomic::Ordering::Relaxed)
 }
 
 type EventFn = dyn Fn(u8, usize, usize, usize) + Send + Sync;
